@@ -85,6 +85,20 @@ func checkC07(ctx *Ctx, c *Case) error {
 				opts.Merge = true
 			}
 		}
+		// every option that changes how the input is consumed
+		switch digest(c.Bytes, "uopts") % 4 {
+		case 1:
+			opts.DiscardUnknown = true
+			ctx.Label("unmarshal options: DiscardUnknown")
+		case 2:
+			opts.AllowPartial = true
+			opts.RecursionLimit = 500
+			ctx.Label("unmarshal options: AllowPartial+RecursionLimit")
+		case 3:
+			opts.DiscardUnknown = true
+			opts.AllowPartial = true
+			ctx.Label("unmarshal options: DiscardUnknown+AllowPartial")
+		}
 		if err := opts.Unmarshal(b, p); err != nil {
 			return nil // C03's business
 		}
